@@ -385,6 +385,75 @@ Proof.
     + rewrite H6. cbn. f_equal.
 Qed.
 
+(* ================= the builder does not panic (any policy that does not, the coded one) ============ *)
+Lemma add_all_total (pol : policy) T : N.of_nat T < two32 ->
+  (forall c k v, (tsize c + esize (k, v) <= T)%nat -> pol (chunk_block c) k v <> None) ->
+  forall es c st, Forall (fun e => wf_key (fst e)) (c ++ es) -> (tsize (c ++ es) <= T)%nat ->
+  bs_cur st = chunk_block c -> exists st', add_all pol st es = Some st'.
+Proof.
+  intros HT Hpol. induction es as [|[k v] es IH]; intros c st Hk Hsz Hcur; cbn [add_all]; [eauto|].
+  unfold add_internal. rewrite Hcur.
+  rewrite tsize_app, tsize_cons in Hsz.
+  destruct (pol (chunk_block c) k v) as [fin|] eqn:Ep; [|exfalso; apply (Hpol c k v); [lia|exact Ep]].
+  set (st0 := if fin then finish_block st else st).
+  assert (Hc0: exists c0, bs_cur st0 = chunk_block c0 /\ (tsize c0 <= tsize c)%nat /\
+                          Forall (fun e => wf_key (fst e)) c0).
+  { apply Forall_app in Hk as [Hkc _]. destruct fin; subst st0.
+    - exists []. unfold finish_block. destruct (length (bb_offs (bs_cur st)) =? 0)%nat; cbn; repeat split; auto; lia.
+    - exists c. auto. }
+  destruct Hc0 as (c0 & Hc0 & Hsz0 & Hk0). rewrite Hc0.
+  apply Forall_app in Hk as [_ Hk]. inversion Hk as [|? ? Hkk Hkes]; subst. cbn [fst] in Hkk.
+  rewrite add_helper_chunk; [|exact Hk0|exact Hkk|rewrite tsize_app, tsize_cons; change (tsize []) with 0%nat; lia].
+  apply (IH (c0 ++ [(k, v)])); [| |reflexivity].
+  - rewrite <- app_assoc. apply Forall_app. split; [exact Hk0|]. constructor; assumption.
+  - rewrite <- app_assoc. cbn [app]. rewrite tsize_app, tsize_cons. lia.
+Qed.
+
+Lemma len_le_tsize c : (4 * length c <= tsize c)%nat.
+Proof. induction c as [|e c IH]; [cbn; lia|]. rewrite tsize_cons. unfold esize. cbn [length]. lia. Qed.
+
+(* the coded shouldFinishBlock never trips its assertions below ~1.4 GiB of entries *)
+Lemma sfb_total bs enc c k v : N.of_nat (3 * (tsize c + esize (k, v)) + 64) < two32 ->
+  should_finish_block bs enc (chunk_block c) k v <> None.
+Proof.
+  intros H. unfold should_finish_block. cbn [chunk_block bb_offs bb_data].
+  rewrite prefix_sums_len, chunk_encs_len.
+  pose proof (len_le_tsize c) as Hl. pose proof (chunk_data_len c) as Hd.
+  unfold esize in H. cbn [fst snd] in H.
+  destruct (N.of_nat (length c) =? 0); [discriminate|].
+  unfold two32 in *.
+  rewrite (N.mod_small (N.of_nat (length c))) by lia.
+  rewrite (N.mod_small ((N.of_nat (length c) + 1) * 4 + 4 + 8 + 4)) by lia.
+  assert (E1: (N.of_nat (length c) + 1) * 4 + 4 + 8 + 4 <? 4294967295 = true) by lia. rewrite E1. cbn [negb].
+  rewrite (N.mod_small (N.of_nat (length (concat (chunk_encs c))))) by lia.
+  rewrite (N.mod_small (N.of_nat (length k))) by lia.
+  assert (Hv: vs_encoded_size v <= N.of_nat (length (vs_encode v))).
+  { unfold vs_encoded_size, vs_encode. rewrite !app_length. cbn [length]. rewrite size_varint_put.
+    etransitivity; [apply N.mod_le; unfold two32; lia|]. lia. }
+  set (S0 := N.of_nat (length (concat (chunk_encs c))) + 6 + N.of_nat (length k) + vs_encoded_size v +
+             ((N.of_nat (length c) + 1) * 4 + 4 + 8 + 4)).
+  assert (HS0: S0 < 4294967296 - 100) by (unfold S0; lia).
+  rewrite (N.mod_small S0) by lia.
+  destruct enc.
+  - rewrite (N.mod_small (S0 + 16)) by lia.
+    assert (E2: N.of_nat (length (concat (chunk_encs c))) + (S0 + 16) <? 4294967295 = true) by (unfold S0; lia).
+    rewrite E2. discriminate.
+  - assert (E2: N.of_nat (length (concat (chunk_encs c))) + S0 <? 4294967295 = true) by (unfold S0; lia).
+    rewrite E2. discriminate.
+Qed.
+
+Theorem build_coded_total bs enc es : Forall (fun e => wf_key (fst e)) es ->
+  N.of_nat (3 * tsize es + 64) < two32 ->
+  exists r, build (should_finish_block bs enc) es = Some r.
+Proof.
+  intros Hk Hsz. unfold build.
+  destruct (add_all_total (should_finish_block bs enc) (tsize es)) with (es := es) (c := @nil kv) (st := bs_init)
+    as (st' & Hst); try reflexivity; auto.
+  - unfold two32 in *. lia.
+  - intros c k v Hle. apply sfb_total. unfold two32 in *. lia.
+  - rewrite Hst. eauto.
+Qed.
+
 (* ================= blockIterator.setIdx on a built block (C18_setidx) ================= *)
 
 Definition dkv : kv := ([], mkVS 0 0 0 []).
